@@ -429,7 +429,7 @@ func (b *builder) value(term string, t types.Type, depth int) string {
 		if tag == 0 {
 			return "nil"
 		}
-		ct, ok := vc.prog.tagType[int(tag)]
+		ct, ok := vc.enc.tagType[int(tag)]
 		if !ok {
 			b.why = "interface value of a type unknown to the VC"
 			return "nil"
